@@ -487,8 +487,9 @@ ck.finish({
     "rule": "one evaluation = one (comparator, tuple of sorted sequences, rank) on which both multisequence_partition and "
             "multisequence_selection of /repo (ASan+UBSan) and the extracted Coq model are run and compared. The templates are "
             "instantiated in 10 variants (RankType int/long/long long/unsigned/size_t; vector, deque and raw-pointer iterators; "
-            "pair sequence by iterator, pointer, const_iterator; element int or key+payload struct compared by key; plain, by-key "
-            "and stateful non-default-constructible comparators): corpus and random cases run every variant on every rank (all "
+            "pair sequence by iterator, pointer, const_iterator; element int or key+payload struct compared by key; comparators: "
+            "the plain functor in 2 variants, and in 8 variants comparators with heap-owned state that the destructor poisons - "
+            "by-key adaptor, non-default-constructible wrapper, capturing lambda, std::function, plain function pointer): corpus and random cases run every variant on every rank (all "
             "must agree), enumerated cases rotate through the variants (template_variant_calls = calls per variant); the model answer "
             "is also compared with the extracted split_spec/select_spec and check_split. Families: the corpus (defect witnesses), "
             "complete enumerations `exh <cmp> <m> <minlen> <maxlen> <keys>` (every tuple of m sorted sequences, every rank 0..N) "
